@@ -2,7 +2,7 @@
    commutation of steps with disjoint footprints, lifted to permutations of import lists. *)
 From Coq Require Import List String Ascii Bool Arith Lia Permutation.
 Import ListNotations.
-From Cb Require Import C18.Model C18.Import.
+From Cb Require Import C18.Model C18.Import C18.Init.
 Local Open Scope string_scope.
 Local Open Scope list_scope.
 
@@ -194,6 +194,10 @@ Proof.
       rewrite E1, E2. exact Logic.I.
   - (* OStatic *) simpl. constructor; simpl; intros; auto. rewrite Hst. tauto.
   - (* OLoaded *) simpl. constructor; simpl; intros; auto. now rewrite Hl.
+  - (* OInit: the same value is computed from tables equal as maps *)
+    simpl. rewrite (eval_frame e a b 0) by (intros; now apply teq_tlookup).
+    destruct (eval b 0 e); [|exact Logic.I].
+    constructor; simpl; intros; auto. now apply lookup_bind_all_congr.
 Qed.
 
 Lemma run_congr : forall ops a b, teq a b -> req (run_ops ops a) (run_ops ops b).
@@ -217,10 +221,19 @@ Definition foot (o : op) : list (ftag * name) :=
   | OCtor s a _ => [(FCtor a, s)]
   | _ => []
   end.
-Definition indep (o1 o2 : op) : Prop := forall x, In x (foot o1) -> ~ In x (foot o2).
+(* the bindings a step looks at: only an initialiser reads (the names in its expression) *)
+Definition op_reads (o : op) : list (tag * name) := match o with OInit _ _ e => ereads e | _ => [] end.
+(* write/write independence ... *)
+Definition findep (o1 o2 : op) : Prop := forall x, In x (foot o1) -> ~ In x (foot o2).
+(* ... and neither step reads what the other writes *)
+Definition indep (o1 o2 : op) : Prop :=
+  findep o1 o2 /\ (forall x, In x (op_reads o1) -> ~ In x (op_writes o2)) /\
+  (forall x, In x (op_reads o2) -> ~ In x (op_writes o1)).
 
+Lemma findep_sym : forall a b, findep a b -> findep b a.
+Proof. unfold findep. intros a b H x Hb Ha. exact (H x Ha Hb). Qed.
 Lemma indep_sym : forall a b, indep a b -> indep b a.
-Proof. unfold indep. intros a b H x Hb Ha. exact (H x Ha Hb). Qed.
+Proof. intros a b [H1 [H2 H3]]. repeat split; auto using findep_sym. Qed.
 
 Lemma bind_bind_comm : forall V k k1 k2 (v1 v2 : V) m, k1 <> k2 ->
   lookup k (bind k1 v1 (bind k2 v2 m)) = lookup k (bind k2 v2 (bind k1 v1 m)).
@@ -251,7 +264,7 @@ Proof.
     apply lookup_bind_all_congr. now apply lookup_bind_all_notin.
 Qed.
 
-Definition simple (o : op) : Prop := match o with OImpl _ | OFail _ => False | _ => True end.
+Definition simple (o : op) : Prop := match o with OImpl _ | OFail _ | OInit _ _ _ => False | _ => True end.
 
 Lemma simple_ok : forall o t, simple o -> exists t', apply_op t o = Ok t' /\ impls t' = impls t.
 Proof. intros o t H. destruct o; simpl in H; try tauto; simpl; eauto. destruct (lookup k (enums t)); eauto. Qed.
@@ -266,7 +279,7 @@ Qed.
 Lemma comm_fail : forall e o t, req (run_ops [OFail e; o] t) (run_ops [o; OFail e] t).
 Proof. intros. simpl. destruct (apply_op t o); exact Logic.I. Qed.
 
-Lemma comm_enum_simple : forall k ms o t, simple o -> indep (OEnum k ms) o ->
+Lemma comm_enum_simple : forall k ms o t, simple o -> findep (OEnum k ms) o ->
   req (run_ops [OEnum k ms; o] t) (run_ops [o; OEnum k ms] t).
 Proof.
   intros k ms o t S I.
@@ -279,13 +292,13 @@ Proof.
   constructor; simpl; intros; try reflexivity; try tauto. apply bind_bind_comm. auto.
 Qed.
 
-Lemma comm_simple_simple : forall o1 o2 t, simple o1 -> simple o2 -> indep o1 o2 ->
+Lemma comm_simple_simple : forall o1 o2 t, simple o1 -> simple o2 -> findep o1 o2 ->
   req (run_ops [o1; o2] t) (run_ops [o2; o1] t).
 Proof.
   intros o1 o2 t S1 S2 I.
   destruct o1; simpl in S1; try tauto; try (apply comm_enum_simple; assumption);
     destruct o2; simpl in S2; try tauto;
-    try (apply req_sym, comm_enum_simple; [exact Logic.I|apply indep_sym; assumption]); simpl;
+    try (apply req_sym, comm_enum_simple; [exact Logic.I|apply findep_sym; assumption]); simpl;
     try (apply teq_refl);
     try (constructor; simpl; intros; try reflexivity; try tauto;
          apply bind_bind_comm; intro; subst;
@@ -303,7 +316,7 @@ Proof.
     destruct (String.eqb p1 p0), (String.eqb p1 p); reflexivity.
 Qed.
 
-Lemma comm_impl_simple : forall d o t, simple o -> indep (OImpl d) o ->
+Lemma comm_impl_simple : forall d o t, simple o -> findep (OImpl d) o ->
   req (run_ops [OImpl d; o] t) (run_ops [o; OImpl d] t).
 Proof.
   intros d o t S I.
@@ -333,7 +346,7 @@ Proof.
     destruct (apply_impl_none _ _ E') as [e' He']. rewrite He'. exact Logic.I.
 Qed.
 
-Lemma comm_impl_impl : forall d1 d2 t, indep (OImpl d1) (OImpl d2) ->
+Lemma comm_impl_impl : forall d1 d2 t, findep (OImpl d1) (OImpl d2) ->
   req (run_ops [OImpl d1; OImpl d2] t) (run_ops [OImpl d2; OImpl d1] t).
 Proof.
   intros d1 d2 t I.
@@ -385,15 +398,111 @@ Proof.
     rewrite He1, He2. exact Logic.I.
 Qed.
 
+(* ----- an initialiser step against any other step *)
+Definition novar (o : op) : Prop := match o with OVar _ _ _ | OInit _ _ _ => False | _ => True end.
+
+Lemma apply_set_vars : forall o t X, novar o ->
+  apply_op (set_vars t X) o = match apply_op t o with Ok t' => Ok (set_vars t' X) | Err e => Err e end.
+Proof.
+  intros o t X H. destruct o; simpl in H; try tauto; simpl; try reflexivity.
+  - destruct (lookup k (enums t)); reflexivity.
+  - destruct (has_impl _ _ _); [reflexivity|]. destruct (find_conflict _ _); reflexivity.
+Qed.
+Lemma novar_vars : forall o t t', novar o -> apply_op t o = Ok t' -> vars t' = vars t.
+Proof.
+  intros o t t' H E. destruct o; simpl in H; try tauto; simpl in E; try (injection E as <-; reflexivity).
+  - destruct (lookup k (enums t)); injection E as <-; reflexivity.
+  - destruct (has_impl _ _ _); [injection E as <-; reflexivity|].
+    destruct (find_conflict _ _); [discriminate|injection E as <-; reflexivity].
+  - discriminate.
+Qed.
+
+Lemma bind_all_bind_comm_gen : forall V k k0 (b : V) ws m, ~ In k0 (map fst ws) ->
+  lookup k (bind k0 b (bind_all ws m)) = lookup k (bind_all ws (bind k0 b m)).
+Proof.
+  intros. destruct (string_dec k k0) as [->|N].
+  - now rewrite lookup_bind_eq, lookup_bind_all_notin, lookup_bind_eq.
+  - rewrite lookup_bind_neq by assumption. apply lookup_bind_all_congr. now rewrite lookup_bind_neq.
+Qed.
+Lemma bind_all_comm_gen : forall V k (ws1 ws2 : list (name * V)) m,
+  (forall x, In x (map fst ws1) -> ~ In x (map fst ws2)) ->
+  lookup k (bind_all ws2 (bind_all ws1 m)) = lookup k (bind_all ws1 (bind_all ws2 m)).
+Proof.
+  intros V k ws1 ws2 m H. destruct (in_dec string_dec k (map fst ws1)) as [I1|N1].
+  - assert (N2 : ~ In k (map fst ws2)) by auto.
+    rewrite (lookup_bind_all_notin _ ws2) by assumption.
+    apply lookup_bind_all_congr. now rewrite lookup_bind_all_notin.
+  - rewrite (lookup_bind_all_notin _ ws1 (bind_all ws2 m)) by assumption.
+    apply lookup_bind_all_congr. now apply lookup_bind_all_notin.
+Qed.
+
+Lemma apply_init_eq : forall t ks c e,
+  apply_op t (OInit ks c e) =
+  match eval t 0 e with VOk v => Ok (set_vars t (bind_all (init_binds ks c v) (vars t))) | VErr er => Err er end.
+Proof. reflexivity. Qed.
+
+Lemma comm_init_any : forall ks c e o t, indep (OInit ks c e) o ->
+  req (run_ops [OInit ks c e; o] t) (run_ops [o; OInit ks c e] t).
+Proof.
+  intros ks c e o t [If [Irw Iwr]]. cbn [run_ops].
+  (* the other step leaves the value of the initialiser alone *)
+  assert (Ev : forall t2, apply_op t o = Ok t2 -> eval t2 0 e = eval t 0 e).
+  { intros t2 E. eapply eval_after_step; eauto. }
+  assert (Hk : forall k, In k ks -> ~ In (TV, k) (op_writes o)).
+  { intros k Hin Hw. apply (If (FMap TV, k)); [|now apply foot_writes].
+    apply foot_writes. simpl. now apply in_map_TV. }
+  destruct (match o with OVar _ _ _ => Some true | OInit _ _ _ => Some false | _ => None end) as [[|]|] eqn:Kind.
+  - (* OVar *)
+    destruct o as [| | | |k0 c0 v0| | | | | | | |]; try discriminate. clear Kind.
+    assert (Nk : ~ In k0 ks). { intro Hin. apply (Hk k0 Hin). simpl. auto. }
+    rewrite !apply_init_eq. cbn [apply_op]. rewrite (Ev _ eq_refl).
+    destruct (eval t 0 e) as [w|er]; [|exact Logic.I]. cbn [apply_op].
+    constructor; simpl; intros; try reflexivity; try tauto.
+    apply bind_all_bind_comm_gen. now rewrite init_binds_keys.
+  - (* OInit *)
+    destruct o as [| | | | | | | | | | | |ks' c' e']; try discriminate. clear Kind.
+    assert (Ev' : forall t1, apply_op t (OInit ks c e) = Ok t1 -> eval t1 0 e' = eval t 0 e').
+    { intros t1 E. eapply eval_after_step; eauto. }
+    rewrite (apply_init_eq t ks c e), (apply_init_eq t ks' c' e').
+    destruct (eval t 0 e) as [v|er] eqn:E0; destruct (eval t 0 e') as [v'|er'] eqn:E0'.
+    + assert (A1 : eval (set_vars t (bind_all (init_binds ks c v) (vars t))) 0 e' = VOk v').
+      { apply Ev'. rewrite apply_init_eq, E0. reflexivity. }
+      assert (A2 : eval (set_vars t (bind_all (init_binds ks' c' v') (vars t))) 0 e = VOk v).
+      { apply Ev. rewrite apply_init_eq, E0'. reflexivity. }
+      rewrite !apply_init_eq, A1, A2.
+      constructor; simpl; intros; try reflexivity; try tauto.
+      apply bind_all_comm_gen. rewrite !init_binds_keys. intros x H1 H2.
+      apply (Hk x H1). simpl. now apply in_map_TV.
+    + assert (A1 : eval (set_vars t (bind_all (init_binds ks c v) (vars t))) 0 e' = VErr er').
+      { apply Ev'. rewrite apply_init_eq, E0. reflexivity. }
+      rewrite apply_init_eq, A1. exact Logic.I.
+    + assert (A2 : eval (set_vars t (bind_all (init_binds ks' c' v') (vars t))) 0 e = VErr er).
+      { apply Ev. rewrite apply_init_eq, E0'. reflexivity. }
+      rewrite apply_init_eq, A2. exact Logic.I.
+    + exact Logic.I.
+  - (* a step that neither reads nor writes variables *)
+    assert (Nv : novar o) by (destruct o; simpl; auto; discriminate).
+    rewrite apply_init_eq. destruct (eval t 0 e) as [v|er] eqn:E0.
+    + rewrite (apply_set_vars o t _ Nv). destruct (apply_op t o) as [t2|] eqn:E2; [|exact Logic.I].
+      rewrite apply_init_eq, (Ev t2 eq_refl), ?E0, (novar_vars _ _ _ Nv E2). apply teq_refl.
+    + destruct (apply_op t o) as [t2|] eqn:E2; [|exact Logic.I].
+      rewrite apply_init_eq, (Ev t2 eq_refl), ?E0. exact Logic.I.
+Qed.
+
 Lemma comm_two : forall o1 o2 t, indep o1 o2 -> req (run_ops [o1; o2] t) (run_ops [o2; o1] t).
 Proof.
   intros o1 o2 t I.
-  destruct o1 as [| | | | | | | |d1| | |e1] eqn:E1;
-    try (destruct o2 as [| | | | | | | |d2| | |e2] eqn:E2;
+  destruct (match o1 with OInit _ _ _ => true | _ => false end) eqn:K1.
+  { destruct o1; try discriminate. now apply comm_init_any. }
+  destruct (match o2 with OInit _ _ _ => true | _ => false end) eqn:K2.
+  { destruct o2; try discriminate. apply req_sym, comm_init_any, indep_sym. exact I. }
+  destruct I as [I _].
+  destruct o1 as [| | | | | | | |d1| | |e1|] eqn:E1; try discriminate K1;
+    try (destruct o2 as [| | | | | | | |d2| | |e2|] eqn:E2; try discriminate K2;
          [ .. | apply req_sym, comm_fail ];
          try (apply comm_simple_simple; simpl; auto; fail);
-         apply req_sym, comm_impl_simple; [simpl; auto|apply indep_sym; assumption]).
-  - destruct o2 as [| | | | | | | |d2| | |e2] eqn:E2;
+         apply req_sym, comm_impl_simple; [simpl; auto|apply findep_sym; assumption]).
+  - destruct o2 as [| | | | | | | |d2| | |e2|] eqn:E2; try discriminate K2;
       try (apply comm_impl_simple; simpl; auto; fail).
     + now apply comm_impl_impl.
     + apply req_sym, comm_fail.
@@ -471,9 +580,13 @@ Variable fs : fsys.
 Definition blocks (l : list name) : list op := flat_map (block pf fs) l.
 Definition footprint (p : name) : list (ftag * name) := flat_map foot (block pf fs p).
 (* modules that bind disjoint names (impl blocks: for different structs; constructors: for different
-   (struct, arity)) *)
+   (struct, arity)) and whose initialisers do not read a name the other module binds *)
+Definition mreads (p : name) : list (tag * name) := flat_map op_reads (block pf fs p).
+Definition mwrites (p : name) : list (tag * name) := flat_map op_writes (block pf fs p).
 Definition independent (U : list name) : Prop :=
-  forall p q, In p U -> In q U -> p <> q -> forall x, In x (footprint p) -> ~ In x (footprint q).
+  forall p q, In p U -> In q U -> p <> q ->
+    (forall x, In x (footprint p) -> ~ In x (footprint q)) /\
+    (forall x, In x (mreads p) -> ~ In x (mwrites q)).
 (* weaker: any two registration steps of two different modules are identical or touch different names *)
 Definition compatible (U : list name) : Prop :=
   forall p q, In p U -> In q U -> p <> q ->
@@ -481,8 +594,12 @@ Definition compatible (U : list name) : Prop :=
 
 Lemma independent_compatible : forall U, independent U -> compatible U.
 Proof.
-  intros U H p q Hp Hq Hne o1 o2 H1 H2. right. intros x Hx1 Hx2.
-  apply (H p q Hp Hq Hne x); unfold footprint; apply in_flat_map; eauto.
+  intros U H p q Hp Hq Hne o1 o2 H1 H2. right.
+  destruct (H p q Hp Hq Hne) as [F R]. destruct (H q p Hq Hp (not_eq_sym Hne)) as [_ R'].
+  split; [|split]; intros x Hx1 Hx2.
+  - apply (F x); unfold footprint; apply in_flat_map; eauto.
+  - apply (R x); [unfold mreads|unfold mwrites]; apply in_flat_map; eauto.
+  - apply (R' x); [unfold mreads|unfold mwrites]; apply in_flat_map; eauto.
 Qed.
 
 Lemma perm_blocks : forall l1 l2, Permutation l1 l2 -> NoDup l1 -> compatible l1 ->
@@ -836,11 +953,16 @@ Proof.
 Defined.
 Definition error_eq_dec : forall a b : error, {a = b} + {a <> b}.
 Proof. decide equality; apply string_dec. Defined.
+Definition expr_eq_dec : forall a b : expr, {a = b} + {a <> b}.
+Proof.
+  fix IH 1. intros a b. decide equality; try apply string_dec; try apply Nat.eq_dec.
+  apply (list_eq_dec (prod_eq_dec Nat.eq_dec IH)).
+Defined.
 Definition op_eq_dec : forall a b : op, {a = b} + {a <> b}.
 Proof.
-  decide equality; try apply string_dec; try apply Nat.eq_dec; try apply bool_dec.
+  decide equality; try apply string_dec; try apply Nat.eq_dec; try apply bool_dec;
+    try apply expr_eq_dec; try apply (list_eq_dec string_dec).
   - apply sdef_eq_dec.
-  - apply (list_eq_dec string_dec).
   - apply (option_eq_dec Nat.eq_dec).
   - apply (list_eq_dec (prod_eq_dec string_dec Nat.eq_dec)).
   - apply impl_eq_dec.
@@ -852,8 +974,11 @@ Definition fk_eq_dec : forall a b : ftag * name, {a = b} + {a <> b} := prod_eq_d
 
 Definition disjointb (a b : list (ftag * name)) : bool :=
   forallb (fun x => if in_dec fk_eq_dec x b then false else true) a.
+Definition tdisjointb (a b : list (tag * name)) : bool :=
+  forallb (fun x => if in_dec tk_eq_dec x b then false else true) a.
 Definition compatb (o1 o2 : op) : bool :=
-  if op_eq_dec o1 o2 then true else disjointb (foot o1) (foot o2).
+  if op_eq_dec o1 o2 then true
+  else disjointb (foot o1) (foot o2) && tdisjointb (op_reads o1) (op_writes o2) && tdisjointb (op_reads o2) (op_writes o1).
 Definition compatibleb (pf : nat) (fs : fsys) (l : list name) : bool :=
   forallb (fun p => forallb (fun q =>
      String.eqb p q || forallb (fun o1 => forallb (compatb o1) (block pf fs q)) (block pf fs p)) l) l.
@@ -861,8 +986,14 @@ Definition compatibleb (pf : nat) (fs : fsys) (l : list name) : bool :=
 Lemma compatb_sound : forall o1 o2, compatb o1 o2 = true -> compat o1 o2.
 Proof.
   intros o1 o2 H. unfold compatb in H. destruct (op_eq_dec o1 o2); [now left|right].
-  intros x H1 H2. unfold disjointb in H. rewrite forallb_forall in H. specialize (H x H1).
-  destruct (in_dec fk_eq_dec x (foot o2)); [discriminate|contradiction].
+  apply andb_true_iff in H. destruct H as [H H3]. apply andb_true_iff in H. destruct H as [H H2].
+  split; [|split]; intros x H1 Hx.
+  - unfold disjointb in H. rewrite forallb_forall in H. specialize (H x H1).
+    destruct (in_dec fk_eq_dec x (foot o2)); [discriminate|contradiction].
+  - unfold tdisjointb in H2. rewrite forallb_forall in H2. specialize (H2 x H1).
+    destruct (in_dec tk_eq_dec x (op_writes o2)); [discriminate|contradiction].
+  - unfold tdisjointb in H3. rewrite forallb_forall in H3. specialize (H3 x H1).
+    destruct (in_dec tk_eq_dec x (op_writes o1)); [discriminate|contradiction].
 Qed.
 
 Lemma compatibleb_sound : forall pf fs l, compatibleb pf fs l = true -> compatible pf fs l.
